@@ -28,7 +28,7 @@ ACTIVE_KEYS = [{'$repeat': 'x', 'z': 1}, {'$repeat': 1.5}, {'$encode': 5, 'z': 1
 CONTROLS = ['$Required', '$FOO', '$', '$1', 'a$required', '${required}']   # not markers: must pass through
 
 
-def inject(rng, t, labels, hidden_ok=True):
+def inject(rng, t, labels, hidden_ok=True, keypool=None):
     """Put 1-3 markers into tree t (a map). Returns the number injected."""
     conts = [(p, n) for p, n in walk(t) if isinstance(n, (dict, list))]
     n = 0
@@ -45,7 +45,7 @@ def inject(rng, t, labels, hidden_ok=True):
             m = rng.choice(CONTROLS)
             labels.add('marker:control')
         if isinstance(c, dict):
-            free = [k for k in gen.KEYS + ['f', 'g'] if k not in c]
+            free = [k for k in (keypool or gen.KEYS + ['f', 'g']) if k not in c]
             if not free:
                 continue
             if isinstance(m, dict) and rng.random() < 0.3 and len(p) > 0 and not any(k in c for k in m):
@@ -71,7 +71,8 @@ def gen_case(rng, i, tier):
             k = rng.choice(gen.KEYS)
             c[k] = '$required' if rng.random() < 0.6 else ['$required']
         labels.add('marker:required')
-    elif mode in ('marker',):
+    late = mode == 'marker' and rng.random() < 0.5
+    if mode == 'marker' and not late:
         inject(rng, base, labels)
     layers = [base]
 
@@ -95,6 +96,10 @@ def gen_case(rng, i, tier):
         if nxt is None:
             break
         cur = nxt
+    if late:
+        # markers placed after the upper layers were derived: no upper layer touches them
+        inject(rng, base, labels, keypool=['mk1', 'mk2', 'mk3', 'mk4'])
+        labels.add('marker:untouched-by-upper-layers')
     if mode == 'hidden':
         # wrap a subtree with markers under $output:false in the base
         sub = gen.tree(rng, 2, 3, root='map')
@@ -170,7 +175,10 @@ def certainly_invalid(d):
     if '$repeat' in d:
         return isinstance(d['$repeat'], (str, float)) and not isinstance(d['$repeat'], bool)
     if '$encode' in d:
-        return seq(d['$encode'], 5) or seq(d['$encode'], 'nosuchformat')
+        if seq(d['$encode'], 5) or seq(d['$encode'], 'nosuchformat'):
+            return True
+        # a valid transform over a subtree that still holds a marker: $encode validates its input
+        return has_marker({k: v for k, v in d.items() if k != '$encode'})
     if '$decode' in d:
         return '$value' not in d or not isinstance(d['$value'], str)
     if '$value' in d:
